@@ -549,7 +549,10 @@ class Interp:
     def ex_List(self, e, fr): return LocalList(self._elts(e.elts, fr))
     def ex_Set(self, e, fr):
         items = self._elts(e.elts, fr)
-        if any(is_sym(x) for x in items): raise Outside('set display with symbolic elements')
+        if any(is_sym(x) for x in items):
+            h = getattr(self.world, 'sym_set_display', None)       # a class-model world may give {x, y} of symbolic items a meaning
+            if h is not None: return h(self, items)
+            raise Outside('set display with symbolic elements')
         return set(items)
     def ex_Dict(self, e, fr):
         d = LocalDict()
